@@ -150,11 +150,12 @@ def partialCmpEdge (a b : Edge α) : SM α (Option Ordering) := do
   let x := (← get).x
   if !(Num.isFinite x) then pure (some .eq)
   else
+    -- both comparisons are on `OrderedFloat` values: total, NaN greatest and equal to itself
     let ya ← yAt a x true
     let yb ← yAt b x true
-    match partialCmp ya yb with
-    | some .eq => pure (partialCmp (← edgeGrad a) (← edgeGrad b))
-    | o => pure o
+    match ofCmp ya yb with
+    | .eq => pure (some (ofCmp (← edgeGrad a) (← edgeGrad b)))
+    | o => pure (some o)
 
 /-- `YEdge::cmp_at` -/
 def cmpAt (a b : Edge α) (x : α) (right : Bool) : SM α Ordering := do
@@ -401,10 +402,12 @@ def handleStart (p : Pt α) (lp1 lp2 : Nat) : SM α Unit := do
     | some tt => do
       let (i, _) ← searchPos (← getEdge tt) act 0
       pure i
+  -- the nesting partners must be ordered bottom below top (guard in front of the range query;
+  -- without it `BTreeSet::range` panics on an inverted pair of bounds)
   match botBot, topTop with
   | some bb, some tt =>
-    if bb == tt then throw (.panic "range")
-    if (← partialCmpEdge (← getEdge bb) (← getEdge tt)) == some .gt then throw (.panic "range")
+    if bb == tt then throw (.overlap .start p)
+    if (← partialCmpEdge (← getEdge bb) (← getEdge tt)) != some .lt then throw (.overlap .start p)
   | _, _ => pure ()
   if lo < hi then throw (.overlap .start p)
   -- link nested edges, set in-interval flags
